@@ -100,6 +100,7 @@ struct GenCfg {
     int force_edge = 0;         // (set per op by gen_plan)
     bool force_violation = false; // every generated op carries a documented violation (C13 tier 3)
     bool alloc_focus = false; // C20: only emit ops from the site-directed generators
+    bool no_edges = false;    // C13: no buffer flush against a neighbouring task's memory
     bool reuse = true;        // a quarter of the tasks end with calls that re-use the buffers of an earlier call for new contents
 };
 void gen_plan(Rng &r, const GenCfg &cfg, Plan &plan);
